@@ -743,8 +743,8 @@ namespace
 
     void free_group(const args& a)
     {
-        static const char* kinds[] = {"sequential-threads", "concurrent-threads"};
-        for (int k = 0; k < 2; ++k)
+        static const char* kinds[] = {"sequential-threads", "concurrent-threads", "stampede"};
+        for (int k = 0; k < 3; ++k)
         {
             std::string kind = kinds[k];
             if (a.kind != "all" && a.kind != kind)
@@ -767,6 +767,43 @@ namespace
                                 log.add(t + 1, 'X');
                             });
                             th.join();
+                        }
+                    }
+                    else if (k == 2)
+                    {
+                        // waves of threads that all ask for their stack at the same instant, while the stacks of the previous wave
+                        // lie unused in the list: the adoption of an unused stack must be one atomic step
+                        int n = int(r.range(4, 16)), waves = int(r.range(20, 60));
+                        op("stampede: %d threads x %d waves, released together by a spin barrier", n, waves);
+                        for (int w = 0; w < waves; ++w)
+                        {
+                            std::atomic<int>         arrived{0}, got{0};
+                            std::vector<std::thread> th;
+                            for (int t = 0; t < n; ++t)
+                            {
+                                int tid = w * 100 + t + 1;
+                                log.add(tid, 'S');
+                                th.emplace_back([&, tid] {
+                                    arrived.fetch_add(1);
+                                    while (arrived.load(std::memory_order_acquire) < n)
+                                    {
+                                    }
+                                    auto& st = get_temporary_stack();
+                                    log.add(tid, 'G', &st);
+                                    temporary_allocator ta;
+                                    auto                p = static_cast<unsigned char*>(ta.allocate(64, 8));
+                                    std::memset(p, tid, 64);
+                                    got.fetch_add(1);
+                                    while (got.load(std::memory_order_acquire) < n) // everybody holds a stack at the same time
+                                        std::this_thread::yield();
+                                    if (p[63] != (unsigned char)tid)
+                                        log.add(tid, '!');
+                                    log.add(tid, 'X');
+                                });
+                            }
+                            for (auto& t : th)
+                                t.join();
+                            count("stampede_waves");
                         }
                     }
                     else
